@@ -447,7 +447,8 @@ ENABLED = True
 LEVEL = "proof"
 LEVEL_TEXT = ("Theorems in coq/theories/Properties/C06.v over a Gallina mirror of the winnow grammar, the formatter, string_len and "
               "the hand-written Eq/Ord/Hash/PartialEq<&str> impls: parse-then-format and format-then-parse round trips, string_len = "
-              "length of the formatted string, Eq/Hash/Ord independent of Static/Dynamic representation, check-only mode accepts the "
+              "length of the formatted string, Eq/Hash/Ord independent of Static/Dynamic representation (== and cmp = Equal hold exactly for "
+              "trees equal up to representation), check-only mode accepts the "
               "same strings, and acceptance = the inductive D-Bus grammar (decided by valid_sigb, proved equivalent) outside three named "
               "classes; all for strings and trees of any size. The model is tied to the code by exhaustive enumeration of short strings "
               "and generated boundary/deep cases on both feature configurations. Unbounded proof + differential correspondence is the "
